@@ -44,7 +44,7 @@ instance (s : State) (b : Bytes) (keys : List Bytes) : Decidable (DeleteObjectsO
 
 /-- the (state, request) pairs on which the backend is compared with the store. Outside it lie the recorded
     deviations (see the finding classes named at each predicate) and what the theorems do not cover
-    (`upload_part_copy` with a malformed range; error answers of `delete_objects`). -/
+    (`upload_part_copy` with a malformed range; `delete_objects` under a bucket name both sides refuse). -/
 def Good (s : State) : Op → Prop
   | .createBucket b => NameOk b
   | .deleteBucket b => NameOk b
